@@ -80,6 +80,9 @@ def check_bs(case) -> Outcome:
     elif case["bounds"] == "outer":
         lb, ub = lo0 - 0.1 * (hi0 - lo0), hi0 + 0.2 * (hi0 - lo0)
     lo, hi = (lb, ub) if lb is not None else (lo0, hi0)
+    if not hi0 > lo0:
+        out.label("excluded:constant-data")
+        return out
     kwargs = dict(degree=k, include_intercept=icpt, extrapolation=mode)
     if lb is not None:
         kwargs.update(lower_bound=lb, upper_bound=ub)
@@ -263,6 +266,9 @@ def check_cs(case) -> Outcome:
     elif case["bounds"] == "outer":
         lb, ub = lo0 - 0.1 * (hi0 - lo0), hi0 + 0.2 * (hi0 - lo0)
     lo, hi = (lb, ub) if lb is not None else (lo0, hi0)
+    if not hi0 > lo0:
+        out.label("excluded:constant-data")
+        return out
     kwargs = dict(extrapolation=mode)
     if lb is not None:
         kwargs.update(lower_bound=lb, upper_bound=ub)
